@@ -26,6 +26,12 @@ class RemoveObject(SuiteTransformer):
                 return True
             elif isinstance(node, ast.arg) and node.arg == 'object':
                 return True
+            elif isinstance(node, ast.ExceptHandler) and node.name == 'object':
+                return True
+            elif isinstance(node, (ast.MatchAs, ast.MatchStar)) and node.name == 'object':
+                return True
+            elif isinstance(node, ast.MatchMapping) and node.rest == 'object':
+                return True
 
         return False
 
